@@ -467,6 +467,7 @@ def decide(pid, tier, seed, t0):
                     unit_problems.append("%s_%s: %s: %s" % (key[0], key[1], ex.reason, ex.detail[-600:]))
 
     violations = []   # dicts with id, rendered, ...
+    dep_broken = []
     known_hits = []
     inconclusive = list(unit_problems)
     obligations = 0
@@ -552,6 +553,13 @@ def decide(pid, tier, seed, t0):
             if not in_cone(f["tags"]):
                 continue
             if f["message"].startswith("recommendation not met"):
+                continue
+            if f.get("fn") in P.get("dependency_fns", []):
+                # a contract this property's proof *relies on* no longer verifies.  The property itself may well still
+                # hold (its own clauses were proved against the callee's contract, not its body), so this is not an
+                # alarm here: the property that owns the callee's contract reports it; here it is undecided unless the
+                # property's own enumerations find a failing input.
+                dep_broken.append("the proof relies on the contract of %s::%s, which fails on this tree (%s)" % (crate, f["fn"], f["clause"][:80]))
                 continue
             hit = [k for k in findings if k["match"] in f["id"]]
             if hit:
@@ -663,7 +671,7 @@ def decide(pid, tier, seed, t0):
         "samples": samples + enum_samples[:6] or ["(none)"],
         "evaluations": max(enum_evals, 0), "distinct_nontrivial": enum_distinct,
         "rule": P.get("rule", "bounded part: concrete enumeration of small inputs on the real crate; distinct = distinct (input, parameters) cases that exercise the routine beyond its trivial early exits"),
-        "inconclusive": inconclusive,
+        "inconclusive": inconclusive + sorted(set(dep_broken)),
     }
     if level != "proof":
         cov["exhaustive"] = bool(P.get("exhaustive", False))
@@ -691,6 +699,7 @@ def decide(pid, tier, seed, t0):
             print("  ... and %d more (see the replay file)" % (len(violations) - 4))
         print("VIOLATION property=%s replay=%s%s" % (pid, path, " no-failing-input-found" if nowit else ""))
         return 1
+    inconclusive = inconclusive + sorted(set(dep_broken))
     if inconclusive:
         print("INCONCLUSIVE property=%s reason=%s" % (pid, inconclusive[0][:600].replace("\n", " | ")))
         return 2
